@@ -1,4 +1,4 @@
-import GixModel.Lemmas.C43Ident
+import GixModel.Lemmas.C43Ident2
 /-
 C43 — Content filters agree with git.  PROPERTY THEOREMS ONLY.
 
@@ -174,6 +174,32 @@ theorem to_worktree_eq_ident_no_dollar (hash : Bytes → Bytes) (src : Bytes) (a
     simp only [hs', Bool.false_eq_true, if_false]
     exact (stream_eq_crlfToWorktree c.toGit src _ hs').symm
 
+/-- the exact relation behind known finding 1: on every byte string that `ident::undo` leaves
+alone (everything the to-git direction stores), `ident::apply` IS git's in-memory
+`ident_to_worktree` for a blob-id rendering that ends in a space — the two differ by that byte and
+nothing else. -/
+theorem ident_apply_eq_git_modulo_space (hash : Bytes → Bytes) (x : Bytes) (hx : identUndo x = none) :
+    (identApply (fun y => hash y ++ [32]) x).getD x = Spec.C43.identToWorktree hash x true :=
+  identApply_eq_git_with_space hash x hx
+
+/-- `to_worktree_eq` modulo that space, for EVERY attribute state (ident set or not), configuration
+and every stored content that `ident::undo` leaves alone: `Pipeline::convert_to_worktree`, run with
+a blob-id rendering ending in a space, yields exactly the bytes of git's in-memory
+`convert_to_working_tree` (`git cat-file --filters`; also `git checkout` for `text=auto` paths). -/
+theorem to_worktree_eq_in_memory_modulo_space (hash : Bytes → Bytes) (src : Bytes) (a : Attrs) (c : Config)
+    (hsrc : a.ident = .set → identUndo src = none) :
+    (pipelineToWorktree (fun y => hash y ++ [32]) src a c).bytes src = convertToWorkingTree hash c.toGit a.toGit src := by
+  rw [pipeline_order_to_worktree]
+  have h := digest_eq_git a c
+  unfold convertToWorkingTree
+  rw [← h]
+  cases hi : (atPath a c).2
+  · simp only [Bool.false_eq_true, if_false, eol_to_worktree_eq, Spec.C43.identToWorktree, Bool.not_false, if_true]
+  · have hset : a.ident = .set := by
+      simp only [atPath] at hi
+      simpa using hi
+    simp only [if_true, eol_to_worktree_eq, ident_apply_eq_git_modulo_space hash src (hsrc hset)]
+
 /-- … and the bytes `git cat-file --filters` prints (the in-memory `convert_to_working_tree`). -/
 theorem to_worktree_eq_in_memory_no_ident (hash : Bytes → Bytes) (src : Bytes) (a : Attrs) (c : Config)
     (hident : a.ident ≠ .set) :
@@ -256,5 +282,10 @@ theorem to_worktree_full_false : ¬ C43_to_worktree_full := by
   have h1 := h hashA [36, 73, 100, 36] attrsIdent cfgPlain
   rw [ident_expansion_differs_from_git.1, ident_expansion_differs_from_git.2] at h1
   exact absurd h1 (by decide)
+
+-- non-vacuity: stored "a $Id$\n" under `ident text eol=crlf`
+example : (pipelineToWorktree (fun y => hashA y ++ [32]) [97, 32, 36, 73, 100, 36, 10]
+      { attrsIdent with text := .set, eol := .value [99, 114, 108, 102] } cfgPlain).bytes [97, 32, 36, 73, 100, 36, 10]
+    = [97, 32, 36, 73, 100, 58, 32, 97, 32, 36, 13, 10] := by decide +kernel
 
 end GixModel.Props.C43
